@@ -11,6 +11,8 @@ A history is
     an optional 4th element holds compile OPTIONS of the public entry points:
         {"reserved": [names]}  -> additional_reserved_names=set(names)
         {"api": "string" | "library" | "dir"}  -> VhdlCompiler.to_string / to_vhdl_library().write() / to_dir
+        {"gc": true}  -> gc.collect() before the operation (not a compile option: frees the cyclic garbage of
+                         earlier compilations, so that object addresses are reused)
 executed in the current interpreter.  Every compile is classified only as accepted (VHDL
 text) or rejected (exception of cohdl); expectations live elsewhere.
 
@@ -23,6 +25,7 @@ same worker process (the verdict of a case is then a function of the case).
 from __future__ import annotations
 
 import contextlib
+import gc
 import hashlib
 import io
 import json
@@ -213,6 +216,8 @@ def run_history(designs: list[str], ops: list[list], monitor: bool = True):
     for entry in ops:
         op, di, top = entry[0], entry[1], entry[2]
         opts = entry[3] if len(entry) > 3 else None
+        if opts and opts.get("gc"):
+            gc.collect()  # part of the history: garbage of earlier compilations is freed before this one
         src = designs[di]
         res = None
         if op == "f" or (op == "c" and di not in mods) or (op == "a" and (di, top) not in last):
